@@ -175,3 +175,34 @@ Theorem C16_sim_blocked_reader_never_woken :
     ~ In e (st_queue (notify_all s (notified k p))).
 Proof. exact blocked_reader_never_woken. Qed.
 Print Assumptions C16_sim_blocked_reader_never_woken.
+
+(** ---- open finding F-C16-e: the keys of a keyed collection are refreshed only by its own
+    write guard and by its iterator ---- *)
+
+(** refuted as a statement about all histories: after a write through an ancestor reordered
+    the collection [7; 8; 9] into [9; 8; 7], the reader of key 7 reaches the item of key 9 *)
+Theorem C16_keyed_reader_follows_key_refuted :
+  let sh := SStruct [SKeyed (SStruct [SInt; SInt])] in
+  let it k n := Lst [Num k; Num n] in
+  let v := Lst [Lst [it 7%Z 70%Z; it 8%Z 80%Z; it 9%Z 90%Z]] in
+  let v' := Lst [Lst [it 9%Z 90%Z; it 8%Z 80%Z; it 7%Z 70%Z]] in
+  let s := after sh [(false, [Fld 0; Key 7%Z])] [] [] v [HSet [] v'] in
+  r_val (fst (walk (root_reached sh s) [Fld 0; Key 7%Z] 0)) = Some (it 9%Z 90%Z).
+Proof. exact keyed_reader_follows_key_refuted. Qed.
+Print Assumptions C16_keyed_reader_follows_key_refuted.
+
+(** except in that known class (KnownClass = the KeyMap entry is out of sync with the
+    collection, ~ entry_synced), a keyed step reaches the item carrying the reader's key ... *)
+Theorem C16_keyed_reader_follows_key_except_known :
+  forall r v k s0 it,
+    r_sh r = SKeyed s0 -> entry_synced (r_keys r) (r_segs r) v ->
+    r_val (extend r v (Key k)) = Some it -> item_key it = k.
+Proof. exact keyed_step_reads_own_key_except_known. Qed.
+Print Assumptions C16_keyed_reader_follows_key_except_known.
+
+(** ... and update_keys(), which the keyed field's own write guard and its iterator run,
+    (re-)establishes the sync, whatever the visiting orders *)
+Theorem C16_update_keys_restores_sync :
+  forall c1 c2 f v, fk_wf f -> NoDup (keys_of v) -> keys_synced (fk_update c1 c2 f (keys_of v)) v.
+Proof. exact update_restores_sync. Qed.
+Print Assumptions C16_update_keys_restores_sync.
